@@ -12,7 +12,7 @@ pub fn sh_quote(s: &str) -> String {
 
 const VALUES: [Option<&str>; 8] = [None, Some(""), Some("a"), Some("a b"), Some(" a  b "), Some(":a::b:"), Some("a:b c"), Some(".a b")];
 const POSITIONALS: [&[&str]; 6] = [&[], &[""], &["a"], &["a", "b c"], &["", "a"], &["a b", ":c:", "d"]];
-const IFSES: [Option<&str>; 7] = [None, Some(" \t\n"), Some(""), Some(":"), Some(" :"), Some(":-"), Some("a")];
+const IFSES: [Option<&str>; 8] = [None, Some(" \t\n"), Some(""), Some(":"), Some(" :"), Some(":-"), Some("a"), Some("\u{e9}:")];
 
 #[derive(Clone, Debug)]
 pub struct Setup {
@@ -545,7 +545,7 @@ fn read_check(ctx: &Ctx) {
 /// is unset, nothing if it is empty) - dash and bash agree.
 fn star_in_single_field_contexts(ctx: &Ctx) {
     let lists: [&[&str]; 6] = [&["a", "b c", "d"], &["a"], &["", "a", ""], &["x y"], &["a", "b"], &["-", ":"]];
-    let ifss: [Option<&str>; 5] = [None, Some(""), Some(":"), Some(" :"), Some("-x")];
+    let ifss: [Option<&str>; 7] = [None, Some(""), Some(":"), Some(" :"), Some("-x"), Some("\u{e9},"), Some("\u{65e5}")];
     let sq = |s: &str| format!("'{}'", s.replace('\'', "'\\''"));
     for list in lists {
         for ifs in ifss {
@@ -587,8 +587,58 @@ fn star_in_single_field_contexts(ctx: &Ctx) {
     }
 }
 
+/// `${IFS=value}` / `${IFS:=value}` inside the word being expanded: field splitting is the step after
+/// all expansions of the word (XCU 2.6), so the word is split with the value assigned by itself.
+/// `$@`/`$*` are kept out (when their joining looks at IFS relative to the assignment is not settled).
+fn ifs_assigned_in_word(ctx: &Ctx) {
+    let lit = |t: &str| -> Vec<Unit> { t.chars().map(Unit::Lit).collect() };
+    let plain = |n: Name| Unit::Param(Param { name: n, form: Form::Plain { braces: true } });
+    let bodies: Vec<(&str, Vec<Unit>)> = vec![
+        ("x", vec![plain(Name::Var("x"))]),
+        ("xy", vec![plain(Name::Var("x")), plain(Name::Var("y"))]),
+        ("x-y", { let mut v = vec![plain(Name::Var("x"))]; v.extend(lit("-")); v.push(plain(Name::Var("y"))); v }),
+        ("1", vec![plain(Name::Pos(1))]),
+        ("lit", lit("p:q")),
+        ("dq", vec![Unit::DQ(vec![DUnit::Param(Param { name: Name::Var("x"), form: Form::Plain { braces: false } })]), plain(Name::Var("y"))]),
+    ];
+    let values = [":", " :", "-", "", "a", ": "];
+    let mut n = 0;
+    for ifs in [None, Some(""), Some(":"), Some(" ")] {
+        for x in [Some("a:b"), Some("a b:c"), Some("a-b c"), Some(":a::b:"), Some("")] {
+            for y in [None, Some("c:d -e")] {
+                let setup = Setup { x, y, pos: vec!["p:q r", "s"], ifs, nounset: false };
+                let mut cases = Vec::new();
+                for (_, body) in &bodies {
+                    for val in values {
+                        for colon in [false, true] {
+                            for quoted in [false, true] {
+                                for place in 0..3 {
+                                    let pm = Param { name: Name::Var("IFS"), form: Form::Switch { colon, kind: Sw::Assign, word: if quoted { lit(val) } else { vec![Unit::SQ(val.to_string())] } } };
+                                    // (inside double quotes a single quote in the switch word is an ordinary character)
+                                    let unit = if quoted { Unit::DQ(vec![DUnit::Param(pm)]) } else { Unit::Param(pm) };
+                                    let mut w: Word = Vec::new();
+                                    match place {
+                                        0 => { w.push(unit); w.extend(body.iter().cloned()); }
+                                        1 => { w.extend(body.iter().cloned()); w.push(unit); }
+                                        _ => { w.extend(body.iter().cloned()); w.push(unit); w.extend(body.iter().cloned()); }
+                                    }
+                                    cases.push(make_case(w, &setup, false));
+                                }
+                            }
+                        }
+                    }
+                }
+                n += cases.len();
+                run_batch(ctx, &setup, &cases, "IFS assigned inside the word");
+            }
+        }
+    }
+    ctx.count("words_assigning_IFS_inside_the_word", n as i64);
+}
+
 pub fn run(ctx: &Ctx) {
     star_in_single_field_contexts(ctx);
+    ifs_assigned_in_word(ctx);
     exhaustive(ctx);
     read_check(ctx);
     *ctx.exhaustive.lock().unwrap() = Some(true);
